@@ -31,12 +31,15 @@ Definition C20_interval_statement : Prop :=
           render_interval dr (mk_interval (repeat 0%Z 7) 0 0 dc) = template_spec (eff dc dr) e "DAY"
           /\ read_interval "DAY" e = Some (false, [0%Z])).
 
-(* ---- JSON: one SQL string literal whose decoded content is the RFC 8259 text of the value ---- *)
-(*      under every keyword context with the standard literal quote — in particular under the
-        contexts of all ten query classes, whatever their identifier quote_char is ---- *)
-Definition C20_json_statement (frag : jvalue -> bool) : Prop :=
-  (forall c v, cx_secondary c = Some "'" -> frag v = true ->
-     json_sql_ctx c v = sql_quote (json_spec v)
+(* ---- JSON: one SQL string literal whose decoded content is the RFC 8259 text of the value, for ALL
+        JSON-serialisable values (string keys; nested dicts/lists; strings with quotes, backslashes,
+        control characters; booleans; None; numbers), under every keyword context with the standard
+        literal quote — in particular under the contexts of all ten query classes, whatever their
+        identifier quote_char is ---- *)
+Definition C20_json_statement : Prop :=
+  (forall c v, cx_secondary c = Some "'" -> jkeys v = true ->
+     json_text v = json_spec v
+     /\ json_sql_ctx c v = sql_quote (json_spec v)
      /\ sql_decode (json_sql_ctx c v) = Some (json_spec v))
   /\ (forall name c, In (name, c) class_ctxs -> cx_secondary c = Some "'")
   /\ List.length class_ctxs = 10.
@@ -52,7 +55,7 @@ Definition C20_seq_statement : Prop :=
     /\ (pg_like d = true -> render_seq d (SSeq KArray []) = "'{}'").
 
 Definition C20_full_statement : Prop :=
-  C20_interval_statement /\ C20_json_statement (fun _ => true) /\ C20_seq_statement.
+  C20_interval_statement /\ C20_json_statement /\ C20_seq_statement.
 
 (* ------------------------------------------------------------------------------------------ *)
 (* what holds                                                                                  *)
@@ -75,15 +78,27 @@ Theorem C20_quarters_drop_other_fields : forall vals q w dc dr, q <> 0%Z ->
 Proof. intros vals q w dc dr Hq. exact (proj1 (interval_quarters vals q w dc dr Hq)). Qed.
 Print Assumptions C20_quarters_drop_other_fields.
 
-(* strings without double quote, backslash, control characters and single quote; int and float
-   leaves; string keys *)
-Theorem C20_json_on_fragment : C20_json_statement jfrag.
+(* the JSON clause in full (since pypika 3c1f928 / 662043c / 4d1a379: strings escaped, true/false/null,
+   literal quote doubled) *)
+Theorem C20_json_holds : C20_json_statement.
 Proof.
-  split; [exact json_on_fragment_ctx|]. split; [|reflexivity].
-  intros name c Hin. destruct class_ctxs_single_quote as [A _]. rewrite forallb_forall in A.
-  specialize (A _ Hin). simpl in A. destruct (cx_secondary c) as [s|]; [|discriminate].
-  simpl in A. apply String.eqb_eq in A. congruence.
+  split; [|split; [exact class_ctx_secondary|reflexivity]].
+  intros c v Hc H. destruct (json_holds_ctx c v Hc H) as [E1 E2].
+  split; [exact (json_text_is_spec v H)|]. split; assumption.
 Qed.
+Print Assumptions C20_json_holds.
+
+(* the SQL literal is right for EVERY value of the modelled type, string-keyed or not: it decodes to
+   exactly the text JSON._recursive_get_sql produced *)
+Theorem C20_json_literal_decodes : forall c v, cx_secondary c = Some "'" ->
+  sql_decode (json_sql_ctx c v) = Some (json_text v).
+Proof. intros c v Hc. unfold json_sql_ctx. rewrite Hc, json_sql_is_quote. apply sql_decode_quote. Qed.
+Print Assumptions C20_json_literal_decodes.
+
+(* nothing lost: the fragment of the earlier rounds lies inside the quantifier *)
+Theorem C20_json_on_fragment : forall c v, cx_secondary c = Some "'" -> jfrag v = true ->
+  json_sql_ctx c v = sql_quote (json_spec v) /\ sql_decode (json_sql_ctx c v) = Some (json_spec v).
+Proof. intros c v Hc H. exact (json_holds_ctx c v Hc (jfrag_jkeys v H)). Qed.
 
 (* the identifier quote of the context never reaches the JSON text *)
 Theorem C20_json_text_independent_of_quote_char : forall q q' sq aq aq' d d' v,
@@ -103,10 +118,9 @@ Proof.
 Qed.
 Print Assumptions C20_seq_holds.
 
-Theorem C20_on_fragment :
-  C20_interval_statement /\ C20_json_statement jfrag /\ C20_seq_statement.
-Proof. exact (conj C20_interval_holds (conj C20_json_on_fragment C20_seq_holds)). Qed.
-Print Assumptions C20_on_fragment.
+Theorem C20_holds : C20_full_statement.
+Proof. exact (conj C20_interval_holds (conj C20_json_holds C20_seq_holds)). Qed.
+Print Assumptions C20_holds.
 
 (* the tables read from the code on this run are the ones the model and the proofs are about *)
 Theorem C20_tables_pinned :
@@ -115,32 +129,6 @@ Theorem C20_tables_pinned :
   /\ (forall d e u, fmt_template 0 (template_of d) e u = template_spec d e u).
 Proof. exact (conj (proj1 pattern_is_expected) (conj labels_are_expected template_is_spec)). Qed.
 Print Assumptions C20_tables_pinned.
-
-(* ------------------------------------------------------------------------------------------ *)
-(* what fails (the model agrees with the code bug for bug)                                     *)
-(* ------------------------------------------------------------------------------------------ *)
-(* a dict whose string value contains a double quote is not valid JSON; a dict with a True value
-   spells the boolean the Python way; the string  it's  ends the SQL literal early *)
-Theorem C20_json_refuted_witnesses :
-  json_sql (Some "'") (JDict [(JStr "k", JStr "a""b")]) = "'{""k"":""a""b""}'"
-  /\ json_spec (JDict [(JStr "k", JStr "a""b")]) = "{""k"":""a\""b""}"
-  /\ json_sql (Some "'") (JDict [(JStr "a", JBool true)]) = "'{""a"":True}'"
-  /\ json_spec (JDict [(JStr "a", JBool true)]) = "{""a"":true}"
-  /\ json_sql (Some "'") (JStr "it's") = "'""it's""'"
-  /\ sql_decode (json_sql (Some "'") (JStr "it's")) = None.
-Proof. repeat split; reflexivity. Qed.
-Print Assumptions C20_json_refuted_witnesses.
-
-Theorem C20_json_refuted : ~ C20_json_statement (fun _ => true).
-Proof.
-  intros (H & _). destruct (H (mkCtx (Some """") (Some "'") None None) (JStr "it's") eq_refl eq_refl) as [_ E].
-  vm_compute in E. discriminate E.
-Qed.
-Print Assumptions C20_json_refuted.
-
-Theorem C20_refuted : ~ C20_full_statement.
-Proof. intros (_ & H & _). exact (C20_json_refuted H). Qed.
-Print Assumptions C20_refuted.
 
 (* ------------------------------------------------------------------------------------------ *)
 (* non-vacuity                                                                                 *)
@@ -161,9 +149,19 @@ Example C20_example_interval :
 Proof. vm_compute. repeat split. Qed.
 Print Assumptions C20_example_interval.
 
+(* regression pins for the repaired JSON defects (fixed: pypika 3c1f928, 662043c, 4d1a379) *)
+Example C20_json_former_witnesses :
+  json_sql (Some "'") (JDict [(JStr "k", JStr "a""b")]) = "'{""k"":""a\""b""}'"
+  /\ json_sql (Some "'") (JDict [(JStr "a", JBool true); (JStr "b", JNull)]) = "'{""a"":true,""b"":null}'"
+  /\ json_sql (Some "'") (JStr "it's") = "'""it''s""'"
+  /\ sql_decode (json_sql (Some "'") (JStr "it's")) = Some """it's"""
+  /\ json_sql (Some "'") (JList [JStr (codes [10; 1; 92])]) = "'[""\n\u0001\\""]'".
+Proof. repeat split; reflexivity. Qed.
+Print Assumptions C20_json_former_witnesses.
+
 Example C20_example_json :
   let v := JDict [(JStr "a", JList [JInt (-1); JStr "x y"; JFloat "1.5e+20"; JDict []])] in
-  jfrag v = true /\ json_sql (Some "'") v = "'{""a"":[-1,""x y"",1.5e+20,{}]}'"
+  jkeys v = true /\ json_sql (Some "'") v = "'{""a"":[-1,""x y"",1.5e+20,{}]}'"
   /\ map (fun e => json_sql_ctx (snd e) (JDict [(JStr "a", JStr "foo")])) class_ctxs
      = repeat "'{""a"":""foo""}'" 10.
 Proof. vm_compute. repeat split. Qed.
